@@ -349,6 +349,8 @@ impl Scenario for C06 {
         };
         let addresses = [ctx.p[3].clone(), ctx.p[2].clone(), ctx.target.clone()];
         let targets: [(&Address, &str, &[&str]); 1] = [(&ctx.target, dir, known)];
+        self.authority_matrix(ctx, out, "");
+        let everybody: Vec<Address> = ctx.p[0..NP].to_vec();
         for (contract, func, args) in axmc::inventory::unknown_calls(w, "C06", &targets, &addresses, 32) {
             let snap = w.snap();
             let call = w.call(&contract, &func, &args, Auth::Nobody);
@@ -361,6 +363,14 @@ impl Scenario for C06 {
                 }
             }
             w.restore(&snap);
+            // with every principal's authorisation such a function may do what it likes, but what the
+            // role queries report afterwards must still be who can administer
+            let snap = w.snap();
+            let call = w.call(&contract, &func, &args, Auth::By(&everybody));
+            if call.ok {
+                self.authority_matrix(ctx, out, &format!("after `{}` (not among the known entry points) was called with every principal's authorisation: ", func));
+            }
+            w.restore(&snap);
         }
     }
 
@@ -370,6 +380,42 @@ impl Scenario for C06 {
 }
 
 impl C06 {
+    /// Who can administer, compared with what the role queries report (not with the model): for every
+    /// principal, a role-gated call succeeds iff the query names that principal.
+    fn authority_matrix(&self, ctx: &Ctx, out: &mut StepOut, context: &str) {
+        let w = &ctx.w;
+        let p = &ctx.p;
+        let env = &w.env;
+        let fee = |amount: i128| to_val(env, &token_scval(&w.sc_addr(&ctx.asset), amount));
+        let mut gated: Vec<(&str, &str, Vec<Val>)> = vec![];
+        if ctx.kind != 4 {
+            gated.push(("owner", "transfer_ownership", vec![p[3].to_val()]));
+        }
+        match ctx.kind {
+            0 => gated.push(("operator", "transfer_operatorship", vec![p[3].to_val()])),
+            1 => {
+                let held = w.query(&ctx.asset, "balance", &[ctx.target.to_val()]).and_then(|v| i128_of(&v)).unwrap_or(0);
+                if held >= 1 {
+                    gated.push(("gas_collector", "collect_fees", vec![p[3].to_val(), fee(1)]));
+                    gated.push(("gas_collector", "refund", vec![to_val(env, &sstr("m")), p[3].to_val(), fee(1)]));
+                }
+            }
+            _ => {}
+        }
+        for (query, func, args) in gated {
+            let holder = w.query(&ctx.target, query, &[]);
+            for i in 0..NP {
+                let snap = w.snap();
+                let c = w.call(&ctx.target, func, &args, Auth::By(&[p[i].clone()]));
+                w.restore(&snap);
+                let named = holder == Some(w.sc_addr_val(&p[i]));
+                out.expect(c.ok == named, "authority.not-what-the-role-query-reports", || {
+                    format!("{}{}: {}() reports {:?}; `{}` authorised by principal {} -> ok={} ({})", context, NAMES[ctx.kind], query, holder, func, i, c.ok, c.err)
+                });
+            }
+        }
+    }
+
     fn role_queries(&self, ctx: &Ctx, m: &Model, out: &mut StepOut) {
         let w = &ctx.w;
         let p = &ctx.p;
